@@ -10,6 +10,8 @@ build() {
   go build -o bin/hcv ./cmd/hcv
 }
 if [ "$1" = "build" ]; then build; exit 0; fi
+# a frozen binary (used by long self-test runs so that edits to the sources do not change the checker mid-run)
+if [ -n "$HCV_BIN" ]; then exec "$HCV_BIN" "$@"; fi
 # rebuild if any source is newer than the binary
 if [ ! -x bin/hcv ] || [ -n "$(find cmd hcv go.mod -newer bin/hcv -print -quit 2>/dev/null)" ]; then build; fi
 exec ./bin/hcv "$@"
